@@ -215,6 +215,9 @@ num_sym!(SymF, ite_f);
 pub enum Tier {
     Quick,
     Thorough,
+    /// built and attempted, but not decided within the thorough budget on this machine: not part of any registered tier
+    /// (run with PV_OPEN=1 or by name); listed in DESIGN.md 9.4 as outside the claim
+    Open,
 }
 
 pub struct Var {
